@@ -195,6 +195,8 @@ structure LogSt where
   /-- the last sequence number each peer was told (from the ops) and whether it has a path (from the ops) -/
   told : List (Nat × Nat) := []
   reachS : List Nat := []
+  /-- peers whose fetch was answered with a Data no forwarder can carry: what they do next is not modelled -/
+  stuck : List Nat := []
 
 def idsText (l : List Nat) : String := dashIfEmpty (".".intercalate ((Spec.sortNat l).map toString))
 
@@ -215,6 +217,10 @@ def toggleM (p : Pub) (id : Nat) : Pub := if p.set.contains id then p.withdraw i
 def burstM : Nat → Nat → Pub → Pub
   | 0, _, p => p
   | m + 1, i, p => burstM m (i + 1) (toggleM p (100 + (i * 3) % numApp))
+
+def bulkM : Nat → Nat → Pub → Pub
+  | 0, _, p => p
+  | m + 1, i, p => bulkM m (i + 1) (p.announce (1000 + i))
 
 def drainM : Nat → Peer → Pub → Nat → Peer × Nat
   | 0, q, _, steps => (q, steps)
@@ -244,6 +250,10 @@ def specBurst : Nat → Nat → LogSt → LogSt
   | m + 1, i, s =>
     let id := 100 + (i * 3) % numApp
     specBurst m (i + 1) (specPubOp s (if s.sSet.contains id then .withdraw id else .announce id))
+
+def specBulk : Nat → Nat → LogSt → LogSt
+  | 0, _, s => s
+  | m + 1, i, s => specBulk m (i + 1) (specPubOp s (.announce (1000 + i)))
 
 def parseIdsDot (t : String) : List Nat := if t == "-" then [] else (t.splitOn ".").filterMap String.toNat?
 
@@ -449,7 +459,7 @@ def stepFib (s : FibSt) (f : List String) (got : String) : StepResult St :=
     | some (s', cmds, cov) => finish s' cmds cov
     | none => { st := .fib s, expected := some "skip", spec := fails }
 
-def stepLog (s : LogSt) (f : List String) (got : String) : StepResult St :=
+def stepLogCore (s : LogSt) (f : List String) (got : String) : StepResult St :=
   let skip : StepResult St := { st := .log s, expected := some "skip" }
   let peerOf (b : String) : Option (Nat × Peer) :=
     match b.toNat? with
@@ -475,6 +485,16 @@ def stepLog (s : LogSt) (f : List String) (got : String) : StepResult St :=
         let s1 := if got == "skip" then s else specBurst m 0 s
         let fails := if got == "skip" then [] else specPubCheck s1 got
         { st := .log { s1 with pub := pub' }, expected := some (dumpPub pub'), spec := fails, cov := ["burst"] }
+      | none => skip
+    else if op == "bulk" then
+      match id.toNat? with
+      | some m =>
+        if m < 1 || m > 2000 then skip else
+        let pub' := bulkM m 0 s.pub
+        let s1 := if got == "skip" then s else specBulk m 0 s
+        let fails := if got == "skip" then [] else specPubCheck s1 got
+        { st := .log { s1 with pub := pub' }, expected := some (dumpPub pub'), spec := fails,
+          cov := ["bulk"] ++ (if pub'.snapSet.length ≥ 300 then ["snapshot-of-300-prefixes"] else []) }
       | none => skip
     else if op == "reach" || op == "unreach" then
       match peerOf id with
@@ -590,6 +610,25 @@ def stepLog (s : LogSt) (f : List String) (got : String) : StepResult St :=
     | _, _ => skip
   | _ => skip
 
+/-- a peer's fetch was answered with a Data larger than any NDN packet may be (`toobig=<bytes>`): no forwarder carries
+    it, so the peer can never reconstruct the set from the log.  The property is violated at this point (clause
+    `log-served`); what the peer does afterwards (it keeps asking) is not compared with the model. -/
+def stepLog (s : LogSt) (f : List String) (got : String) : StepResult St :=
+  let peerArg : Option Nat := match f with
+    | [op, b] => if ["reach", "unreach", "deliver", "timeout", "drain"].contains op then b.toNat? else none
+    | ["sync", b, _] => b.toNat?
+    | ["pairs", b, _] => b.toNat?
+    | _ => none
+  match peerArg with
+  | some b =>
+    if s.stuck.contains b then { st := .log s, expected := none }
+    else match parseField got "toobig" with
+      | some n =>
+        { st := .log { s with stuck := b :: s.stuck }, expected := none, cov := ["snapshot-exceeds-packet"],
+          spec := [⟨"log-served", "snapshot-exceeds-packet", s!"peer {b} asked for a packet of the publisher's prefix log and the publisher answered with a Data of {n} bytes, more than any NDN packet may hold (8800): no forwarder carries it, so a peer that has to start from this snapshot never reconstructs the announced set ({s.sSet.length} prefixes)"⟩] }
+      | none => stepLogCore s f got
+  | none => stepLogCore s f got
+
 /-- closed-loop histories: the routers run by themselves (real Router.Start); no step-by-step model — the SPEC is
     evaluated at quiescence on what every router reports: the routes its forwarder was told mirror its tables
     (`routes-mirror-tables`, per router), and every router holds, for every router it can reach, exactly the prefixes
@@ -695,7 +734,7 @@ def step (st : St) (op : String) (got : String) : StepResult St :=
         { st := st, expected := some "skip" }
     | .wire s => stepWire s f got
     | .log s =>
-      if ["ann", "wd", "rv", "burst", "sync", "pairs", "prestart", "reach", "unreach", "deliver", "timeout", "drain"].contains (f.headD "") then stepLog s f got
+      if ["ann", "wd", "rv", "burst", "bulk", "sync", "pairs", "prestart", "reach", "unreach", "deliver", "timeout", "drain"].contains (f.headD "") then stepLog s f got
       else { st := st, expected := some "skip" }
 
 end C19Drv
